@@ -539,11 +539,12 @@ def load_repo(root=None) -> Repo:
 # ---------------------------------------------------------------------------
 # helpers that make shape rules survive behaviour-preserving refactorings
 # ---------------------------------------------------------------------------
-def inline_locals(fn, expr, max_rounds=3):
-    """``expr`` with every plain local of ``fn`` that is assigned exactly once (and is not a loop/with/except target)
-    replaced by its defining expression -- undoes `alias = self.tables[tag]` style refactorings."""
-    import copy
-
+def single_defs(fn):
+    """{local name: defining expression} for the plain locals of ``fn`` that are bound exactly once by a simple assignment
+    and never mutated in place (cached on the function node)"""
+    cached = getattr(fn, "_single_defs", None)
+    if cached is not None:
+        return cached
     defs = {}
     multi = set()
     for n in walk_no_nested(fn):
@@ -565,6 +566,20 @@ def inline_locals(fn, expr, max_rounds=3):
             multi.add(n.value.id)
     params = {a.arg for a in fn.args.posonlyargs + fn.args.args + fn.args.kwonlyargs} if hasattr(fn, "args") else set()
     single = {k: v[0] for k, v in defs.items() if len(v) == 1 and k not in multi and k not in params}
+
+    try:
+        fn._single_defs = single
+    except Exception:
+        pass
+    return single
+
+
+def inline_locals(fn, expr, max_rounds=3):
+    """``expr`` with every plain local of ``fn`` that is assigned exactly once (and is not a loop/with/except target)
+    replaced by its defining expression -- undoes `alias = self.tables[tag]` style refactorings."""
+    import copy
+
+    single = single_defs(fn)
 
     class T(ast.NodeTransformer):
         def visit_Name(self, n):
@@ -630,3 +645,57 @@ def canon_cond(t):
                 t2 = ast.Compare(left=t.left, ops=[posop()], comparators=t.comparators)
                 return norm(t2), not pol
     return norm(t), pol
+
+
+def sym_return(repo, f, depth=2, _args=None):
+    """Symbolic summary of a straight-line function: the returned expression written over the parameters only, with every
+    local substituted in assignment order (re-bound names included) and calls to straight-line module-level helpers of
+    the same module inlined ``depth`` levels.  Returns an ast expression, or None when the body has control flow.  Local
+    renames, extracted helpers and temporaries all produce the same summary."""
+    node = f.node
+    if not isinstance(node, (ast.FunctionDef, ast.AsyncFunctionDef)):
+        return None
+    env = dict(_args or {})
+
+    def subst(expr):
+        clone = ast.parse(norm(expr), mode="eval").body
+
+        class T(ast.NodeTransformer):
+            def visit_Name(self, n):
+                if isinstance(n.ctx, ast.Load) and n.id in env:
+                    return ast.parse("(" + norm(env[n.id]) + ")", mode="eval").body
+                return n
+
+            def visit_Call(self, c):
+                c = self.generic_visit(c)
+                if depth > 0 and isinstance(c.func, ast.Name) and c.func.id not in env and not c.keywords:
+                    h = f.mod.funcs.get(c.func.id)
+                    if h is not None and h.cls is None and isinstance(h.node, ast.FunctionDef) and h.node is not node:
+                        ps = [a.arg for a in h.node.args.posonlyargs + h.node.args.args]
+                        if len(ps) == len(c.args) and not h.node.args.vararg and not h.node.args.kwarg and not h.node.args.defaults:
+                            r = sym_return(repo, h, depth - 1, dict(zip(ps, c.args)))
+                            if r is not None:
+                                return r
+                return c
+
+            def visit_Lambda(self, n):
+                return n
+
+        return T().visit(clone)
+
+    ret = None
+    for st in node.body:
+        if isinstance(st, ast.Expr) and isinstance(st.value, ast.Constant):
+            continue
+        if isinstance(st, ast.Assign) and len(st.targets) == 1 and isinstance(st.targets[0], ast.Name):
+            env[st.targets[0].id] = subst(st.value)
+        elif isinstance(st, ast.Assign) and len(st.targets) == 1 and isinstance(st.targets[0], ast.Tuple) and isinstance(st.value, ast.Tuple) and len(st.targets[0].elts) == len(st.value.elts) and all(isinstance(t, ast.Name) for t in st.targets[0].elts):
+            vals = [subst(v) for v in st.value.elts]
+            for t, v in zip(st.targets[0].elts, vals):
+                env[t.id] = v
+        elif isinstance(st, ast.Return) and st.value is not None:
+            ret = subst(st.value)
+            break
+        else:
+            return None
+    return ret
